@@ -514,9 +514,9 @@ func (h *H) generate(id int64, total int) string {
 		special = "manifest>4MiB"
 	case id%97 == 6:
 		special = "manifest=4MiB"
-	case h.tier == "thorough" && id%997 == 7, h.tier != "thorough" && id == 7:
+	case h.tier == "thorough" && id%997 == 7, h.tier != "thorough" && id == nScripted+7:
 		special = "blob>32MiB"
-	case h.tier == "thorough" && id%997 == 8, h.tier != "thorough" && id == 8:
+	case h.tier == "thorough" && id%997 == 8, h.tier != "thorough" && id == nScripted+8:
 		special = "blob=32MiB"
 	case id%97 == 9:
 		special = "annotations>4MiB"
